@@ -281,6 +281,14 @@ func (e *fnEnc) block(b *ssa.BasicBlock, entryGuard string) {
 					e.havoc(k)
 				}
 			}
+			// ghost call-site counters bumped inside the loop are havocked too (they only grow)
+			for _, site := range e.hitSitesIn(li) {
+				hk := hitsKey(site)
+				vc.key(hk)
+				before := e.heap(hk)
+				e.havoc(hk.Name)
+				vc.assume(sImp(r, fmt.Sprintf("(>= %s %s)", e.cur[hk.Name], before)))
+			}
 			// allocation clock: havocked but never behind any entry edge
 			hc := vc.fresh("clockh", "Int")
 			for i, p := range preds {
@@ -522,6 +530,32 @@ func (e *fnEnc) loopObligations(li *loopInfo, from *ssa.BasicBlock, guard, kind 
 		name := fmt.Sprintf("%s#%s:loop%d.%s.from%d", FuncKey(e.fn), kind, li.ordinal, tag, e.edgeOrdinal(li, from))
 		e.vc.oblige(&Obligation{Name: name, Kind: kind, Guard: guard, Cond: f, Props: props, Src: cl.Src, Pos: e.loopPos(li.head), CandOf: candOf(cl)})
 	}
+	if kind == "inv-preserve" && e.contract != nil && e.headHeap[li.head] != nil {
+		hh := e.headHeap[li.head]
+		for i, cl := range e.contract.Steps {
+			if e.clauseLoop(cl) != li.ordinal {
+				continue
+			}
+			env.prevHeap = hh
+			env.lookupPrev = func(name string) (TV, bool) { return e.varAt(name, li.head, nil, hh) }
+			cur := e.cur
+			env.lookup = func(name string) (TV, bool) { return e.varAtIdx(name, from, len(from.Instrs), nil, cur) }
+			f, err := env.Bool(cl.Expr)
+			if err != nil {
+				e.fail("loop %d step %q: %v", li.ordinal, cl.Src, err)
+			}
+			props := cl.Props
+			if len(props) == 0 {
+				props = e.contract.AllProps()
+			}
+			tag := cl.Tag
+			if tag == "" {
+				tag = fmt.Sprintf("s%d", i)
+			}
+			name := fmt.Sprintf("%s#step:loop%d.%s.from%d", FuncKey(e.fn), li.ordinal, tag, e.edgeOrdinal(li, from))
+			e.vc.oblige(&Obligation{Name: name, Kind: "step", Guard: guard, Cond: f, Props: props, Src: cl.Src, Pos: e.loopPos(li.head)})
+		}
+	}
 	if kind == "inv-preserve" {
 		for i, cl := range decs {
 			tv, err := env.Term(cl.Expr)
@@ -549,6 +583,11 @@ func (e *fnEnc) edgeOrdinal(li *loopInfo, from *ssa.BasicBlock) int {
 
 // resultEnv resolves names at a return instruction.
 func (e *fnEnc) resultEnv(vals []string, heap map[string]string) *specEnv {
+	return e.resultEnvAt(vals, heap, nil)
+}
+
+// resultEnvAt: ret != nil additionally resolves local variables whose definition dominates that return.
+func (e *fnEnc) resultEnvAt(vals []string, heap map[string]string, ret *ssa.Return) *specEnv {
 	env := e.newEnv()
 	env.heapAt = heap
 	env.oldHeap = e.entryHeap
@@ -570,6 +609,14 @@ func (e *fnEnc) resultEnv(vals []string, heap map[string]string) *specEnv {
 		}
 		if tv, ok := e.params[name]; ok {
 			return tv, true
+		}
+		if ret != nil {
+			b := ret.Block()
+			for k, in := range b.Instrs {
+				if in == ssa.Instruction(ret) {
+					return e.varAtIdx(name, b, k, nil, heap)
+				}
+			}
 		}
 		return e.freeVarByName(name, heap)
 	}
@@ -685,4 +732,33 @@ func (e *fnEnc) clauseLoop(cl *Clause) int {
 		return ord
 	}
 	return -2
+}
+
+// hitSitesIn lists the counted call sites (contract HitSites) that have a call instruction inside loop li.
+func (e *fnEnc) hitSitesIn(li *loopInfo) []string {
+	if !e.top || e.contract == nil || len(e.contract.HitSites) == 0 {
+		return nil
+	}
+	found := map[string]bool{}
+	for b := range li.body {
+		for _, in := range b.Instrs {
+			ci, ok := in.(ssa.CallInstruction)
+			if !ok {
+				continue
+			}
+			c := ci.Common()
+			for _, n := range e.callNames(c) {
+				site := fmt.Sprintf("%s#%d", n, e.siteOrdinal(in, n))
+				if e.contract.HitSites[site] {
+					found[site] = true
+				}
+				for hs := range e.contract.HitSites {
+					if strings.HasPrefix(hs, n+"@arg") {
+						found[hs] = true
+					}
+				}
+			}
+		}
+	}
+	return sortedKeys(found)
 }
